@@ -59,6 +59,9 @@ Verdict(e) ==
     [] e.op = "affine" -> IF e.res = [k \in 1..Len(e.x) |-> Apply(e.model, e.x[k])] THEN {} ELSE {"AffineInSignal"}
     [] e.op = "combined" -> IF e.res = [k \in 1..Len(e.x) |-> Compose(e.models, e.x[k])] THEN {} ELSE {"CombinedIsComposition"}
     [] e.op = "route" ->
+         \* after the update the combined model evaluates as the composition with the parameters it reports
+         (IF e.raised = 0 /\ e.x # <<>> /\ e.resafter # [k \in 1..Len(e.x) |-> Compose(e.after, e.x[k])] THEN {"CombinedEvaluatesWithRoutedParameters"} ELSE {})
+         \cup
          (IF e.dofsall = 1
             THEN (IF e.raised = 0 /\ e.after = RouteAll(e.models, e.params) THEN {} ELSE {"ParametersRoutedInOrder"})
             ELSE (IF ~ValidDofs(e.models, e.dofs) THEN {}
